@@ -87,6 +87,13 @@ func fixedHistory() *eng.CrashHistory {
 		Ops: []m.Op{a[7], a[2], a[4], a[5], a[12], a[9]}}
 }
 
+// bigBatchHistory: one Insert of n documents into an indexed collection; crash points thinned by stride.
+func bigBatchHistory(n, stride int) *eng.CrashHistory {
+	return &eng.CrashHistory{Name: fmt.Sprintf("batch-%d", n), Stride: stride,
+		Prep: []m.Op{{K: "createColl", Coll: "a"}, {K: "createIndex", Coll: "a", Field: "x"}, ins("a", doc(u1, "x", int64(1)))},
+		Ops:  []m.Op{ins("a", manyDocs(n)...), {K: "delete", Q: qOn("a", m.Leaf("gte", "x", int64(3)))}}}
+}
+
 func init() {
 	register("C05", "fault_enumeration", func(run *ev.Run, tier string) string {
 		tags := own("crash-state", "reopen", "setup", "harness")
@@ -96,11 +103,14 @@ func init() {
 			maxLen = 3
 		}
 		hs := crashHistories(maxLen)
-		hs = append(hs, fixedHistory())
+		hs = append(hs, fixedHistory(), bigBatchHistory(700, 41), bigBatchHistory(1300, 97))
+		if tier == "thorough" {
+			hs = append(hs, bigBatchHistory(2600, 61), bigBatchHistory(5200, 211))
+		}
 		run.Set("histories", len(hs))
 		eng.CrashSnapshots(run, hs, tags)
 		// real kills: validates the image model on bbolt and covers badger on disk
-		kills := []*eng.CrashHistory{fixedHistory()}
+		kills := []*eng.CrashHistory{fixedHistory(), bigBatchHistory(1300, 401)}
 		if tier == "thorough" {
 			kills = append(kills, crashHistories(2)...)
 		} else {
@@ -124,6 +134,6 @@ func init() {
 		run.Set("distinct_nontrivial", cp)
 		run.Assume("the property speaks of a killed process: every completed write survives (file images / SIGKILL), power loss with dropped unsynced writes is not modelled")
 		run.Assume("for bbolt the file image at a store-call boundary equals what SIGKILL at that instant leaves (pwrite + read-only mmap); this equivalence is itself exercised by the real kills on the same histories")
-		return "crash points: every store call (and every gap between operations) of every history of write operations of length <= 2 (thorough: 3) over a 13-operation alphabet (create/drop collection, single and batch insert, point and bulk update/delete, create/drop index, ImportCollection, CreateCollectionByQuery) from three prepared states, plus a fixed 6-operation history; bbolt: the database file image at that instant is reopened with the plain public Open; bbolt and badger-on-disk: a child process replays the history and SIGKILLs itself at store call k for every k, the parent reopens; oracle: the recovered database equals the reference state after all acknowledged operations or additionally the one in flight - documents, counts, catalog, every index answering like a scan, raw key set equal to a canonical rebuild, no repair step; plus clean close/reopen in every reachable state of the 'consistency' alphabet; distinct = distinct crash points"
+		return "crash points: every store call (and every gap between operations) of every history of write operations of length <= 2 (thorough: 3) over a 13-operation alphabet (create/drop collection, single and batch insert, point and bulk update/delete, create/drop index, ImportCollection, CreateCollectionByQuery) from three prepared states, plus a fixed 6-operation history and batch inserts of 700 / 1300 (thorough: 2600 / 5200) documents followed by a bulk delete (crash points every 41st / 97th store call); bbolt: the database file image at that instant is reopened with the plain public Open; bbolt and badger-on-disk: a child process replays the history and SIGKILLs itself at store call k for every k, the parent reopens; oracle: the recovered database equals the reference state after all acknowledged operations or additionally the one in flight - documents, counts, catalog, every index answering like a scan, raw key set equal to a canonical rebuild, no repair step; plus clean close/reopen in every reachable state of the 'consistency' alphabet; distinct = distinct crash points"
 	})
 }
